@@ -225,6 +225,142 @@ theorem C08_op_returns {scripts : List (List Cmd)} {s : Sys} (hr : Reachable gen
   · exact h
   · exact absurd (hnp out hm) h
 
+/-! ## any interleaving: a retry is paid for by somebody else's success (lock-freedom, quantitatively) -/
+
+/-- the step was a successful compare-exchange: it appended a message to one of the two queue histories -/
+def Out.appended (o : Out) : Bool :=
+  match o.obs with
+  | .cas _ _ _ true _ => true
+  | _ => false
+
+theorem ccost_any (s s' : Sys) (th : Thread) : ccost s' th ≤ ccost s th + 1 := by
+  unfold ccost; split <;> (try split) <;> (try split) <;> omega
+
+theorem ccost_congr {s s' : Sys} (th : Thread) (h : ∀ q, s'.hist q = s.hist q) : ccost s' th = ccost s th := by
+  unfold ccost; split <;> simp [h]
+
+theorem cell_hist (s : Sys) (idx : Nat) (cs : List (Option Nat)) (q : Loc) :
+    ({ cellSys s idx with cells := cs } : Sys).hist q = s.hist q := by cases q <;> rfl
+
+/-- a step of another thread leaves thread `t` as it is and raises its remaining cost by at most one, and
+only if that step was a successful compare-exchange -/
+theorem other_step {o : Orders} {s s' : Sys} {j t : Nat} {c : Choice} {out : Out} (hjt : t ≠ j)
+    (hs : step o s j c = some (s', out)) (th : Thread) (hth : s.threads[t]? = some th) :
+    s'.threads[t]? = some th ∧ ccost s' th ≤ ccost s th + (if out.appended then 1 else 0) := by
+  cases hj : s.threads[j]? with
+  | none => unfold step at hs; simp [hj] at hs
+  | some thj =>
+    have h := cstep_of hj hs
+    have keep : ∀ (s0 : Sys) (th' : Thread), s0.threads = s.threads → (setTh s0 j th').threads[t]? = some th := by
+      intro s0 th' e; rw [setTh_get_ne _ _ _ _ hjt, e]; exact hth
+    have same : ∀ (s0 : Sys) (th' : Thread), (∀ q, s0.hist q = s.hist q) →
+        ccost (setTh s0 j th') th ≤ ccost s th + (if out.appended then 1 else 0) := by
+      intro s0 th' e
+      have : ccost (setTh s0 j th') th = ccost s th := ccost_congr th (by intro q; rw [hist_setTh]; exact e q)
+      omega
+    cases h with
+    | startNone q tag rest hpc hsc hz => exact ⟨keep _ _ rfl, same _ _ (fun _ => rfl)⟩
+    | startGo q tag rest hpc hsc hz => exact ⟨keep _ _ rfl, same _ _ (fun _ => rfl)⟩
+    | deqFailNone q tag cur hpc hcs hz => exact ⟨keep _ _ rfl, same _ _ (fun _ => rfl)⟩
+    | deqFailRetry q tag cur hpc hcs hz => exact ⟨keep _ _ rfl, same _ _ (fun _ => rfl)⟩
+    | enqLoad q idx ret hpc => exact ⟨keep _ _ rfl, same _ _ (fun _ => rfl)⟩
+    | enqFail q idx ret cur new hpc he hcs => exact ⟨keep _ _ rfl, same _ _ (fun _ => rfl)⟩
+    | enqPanic q idx ret cur hpc he => exact ⟨keep _ _ rfl, same _ _ (fun _ => rfl)⟩
+    | write idx tag hpc => exact ⟨keep _ _ rfl, same _ _ (cell_hist s idx _)⟩
+    | takeSome idx tag hpc hc => exact ⟨keep _ _ rfl, same _ _ (cell_hist s idx _)⟩
+    | takeNone idx hpc hc => exact ⟨keep _ _ rfl, same _ _ (cell_hist s idx _)⟩
+    | deqOk q tag cur hpc hcs =>
+      refine ⟨keep _ _ (by cases q <;> rfl), ?_⟩
+      have := ccost_any s (setTh (s.setHist q (s.hist q ++ [{ val := cur >>> Gen.BITS, view := casMsgView o.deqSucc s q thj }])) j
+        { thj with pc := afterDeq tag (idxOf (cur &&& MASK)), view := casView o.deqSucc s q thj }) th
+      simpa [Out.appended] using this
+    | enqOk q idx ret cur new hpc he hcs =>
+      refine ⟨keep _ _ (by cases q <;> rfl), ?_⟩
+      have := ccost_any s (setTh (s.setHist q (s.hist q ++ [{ val := new, view := casMsgView o.enqSucc s q thj }])) j
+        { thj with pc := .idle, view := casView o.enqSucc s q thj }) th
+      simpa [Out.appended] using this
+
+/-- run a schedule of (thread, environment choice); a step that is not enabled (the thread has finished) is skipped -/
+def exec (o : Orders) : Sys → List (Nat × Choice) → List (Nat × Choice × Out)
+  | _, [] => []
+  | s, (j, c) :: rest =>
+    match step o s j c with
+    | none => exec o s rest
+    | some (s', out) => (j, c, out) :: exec o s' rest
+
+/-- along the schedule, every compare-exchange *of thread `t`* that fails observes the current value -/
+def freshFor (o : Orders) (t : Nat) : Sys → List (Nat × Choice) → Prop
+  | _, [] => True
+  | s, (j, c) :: rest =>
+    (j = t → ∀ th, s.threads[t]? = some th → th.pc.isCas = true → c.read = none) ∧
+    match step o s j c with
+    | none => freshFor o t s rest
+    | some (s', _) => freshFor o t s' rest
+
+def ownSteps (t : Nat) (tr : List (Nat × Choice × Out)) : Nat := tr.countP (fun e => e.1 == t)
+def ownSpurious (t : Nat) (tr : List (Nat × Choice × Out)) : Nat := tr.countP (fun e => e.1 == t && e.2.1.spurious)
+def othersAppends (t : Nat) (tr : List (Nat × Choice × Out)) : Nat := tr.countP (fun e => e.1 != t && e.2.2.appended)
+
+/-- **C08.op_bounded_concurrent** — any number of threads, any interleaving, from any state: as long as thread
+`t` has not completed the `send`/`recv` it is in, the number of own steps it has taken is below `ccost ≤ 7`, plus
+its spurious failures, plus the number of compare-exchanges *other* threads have won meanwhile. A retry is never
+a wait: each one is paid for by another operation's success (or by the hardware's spurious failure). -/
+theorem C08_op_bounded_concurrent (o : Orders) (t : Nat) (sched : List (Nat × Choice)) : ∀ (s : Sys) (th : Thread),
+    s.threads[t]? = some th → (th.pc ≠ .idle ∨ th.script ≠ []) → freshFor o t s sched →
+    (∀ e ∈ exec o s sched, e.1 = t → ¬ e.2.2.done) →
+    ownSteps t (exec o s sched) < ccost s th + ownSpurious t (exec o s sched) + othersAppends t (exec o s sched) := by
+  induction sched with
+  | nil =>
+    intro s th hth hbusy _ _
+    have : 1 ≤ ccost s th := by
+      unfold ccost
+      cases hpc : th.pc with
+      | idle =>
+        rcases hbusy with h | h
+        · exact absurd hpc h
+        · simp [h]
+      | deqCas q tg cur => simp only; split <;> omega
+      | enqCas q i r cur => simp only; split <;> omega
+      | write i tg => simp
+      | take i => simp
+      | enqLoad q i r => simp
+    simp [exec, ownSteps, ownSpurious, othersAppends]; omega
+  | cons e rest ih =>
+    obtain ⟨j, c⟩ := e
+    intro s th hth hbusy hf hnd
+    obtain ⟨hf1, hf2⟩ := hf
+    by_cases hjt : j = t
+    · subst hjt
+      obtain ⟨s', out, hs, hcase⟩ := op_step o s j c th hth hbusy (hf1 rfl th hth)
+      simp only [hs] at hf2
+      simp only [exec, hs] at hnd ⊢
+      rcases hcase with hd | ⟨th', hth', hpc', hle, hlt⟩
+      · exact absurd hd (hnd _ List.mem_cons_self rfl)
+      · have := ih s' th' hth' (Or.inl hpc') hf2 (fun e he => hnd e (List.mem_cons_of_mem _ he))
+        simp only [ownSteps, ownSpurious, othersAppends, List.countP_cons] at this ⊢
+        cases hsp : c.spurious
+        · have h1 := hlt hsp
+          simp [hsp]; omega
+        · simp [hsp]; omega
+    · cases hs : step o s j c with
+      | none =>
+        simp only [hs] at hf2
+        simp only [exec, hs] at hnd ⊢
+        exact ih s th hth hbusy hf2 hnd
+      | some r =>
+        obtain ⟨s', out⟩ := r
+        simp only [hs] at hf2
+        simp only [exec, hs] at hnd ⊢
+        obtain ⟨hth', hc⟩ := other_step (Ne.symm hjt) hs th hth
+        have := ih s' th hth' hbusy hf2 (fun e he => hnd e (List.mem_cons_of_mem _ he))
+        simp only [ownSteps, ownSpurious, othersAppends, List.countP_cons] at this ⊢
+        have hne : (j == t) = false := by simpa using hjt
+        cases hap : out.appended
+        · simp [hap] at hc
+          simp [hne, hap, hjt]; omega
+        · simp [hap] at hc
+          simp [hne, hap, hjt]; omega
+
 /-! ## non-vacuity: a sender interrupted between its load and its compare-exchange by another sender that
 takes the slot; resumed alone, its first compare-exchange fails (stale), the second succeeds; with one
 spurious failure thrown in, the send returns at its 6th further own step (7 in all) -/
@@ -233,6 +369,15 @@ example :
     let outs := soloRun genOrders 0 s [{}, { spurious := true }, {}, {}, {}, {}, {}]
     (outs.map (fun o => o.ret.isSome)) = [false, false, false, false, false, true] ∧
       outs.all (fun o => o.panic.isNone) = true := by
+  decide +kernel
+
+/-- two senders interleaved: thread 0 loses its first compare-exchange to thread 1 (one append by the other),
+retries and wins; three own steps so far, the call not yet complete -/
+example :
+    let tr := exec genOrders (Sys.init [[.send 7], [.send 9]]) [(0, {}), (1, {}), (1, {}), (0, {}), (0, {})]
+    ownSteps 0 tr = 3 ∧ ownSpurious 0 tr = 0 ∧ othersAppends 0 tr = 1 ∧
+      (tr.map (fun e => (e.1, e.2.2.appended))) = [(0, false), (1, false), (1, true), (0, false), (0, true)] ∧
+      tr.all (fun e => e.2.2.ret.isNone && e.2.2.panic.isNone) = true := by
   decide +kernel
 
 end SigHook.Channel
